@@ -45,9 +45,9 @@ const O_ITER: usize = 10;
 const O_FMT: usize = 11;
 const O_ADAPT: usize = 12;
 
-pub fn weights_for(prop: &str) -> [u32; 18] {
+pub fn weights_for(prop: &str) -> [u32; 19] {
     //            ins rep rem tak ret clr drn con ext frk itr fmt
-    let mut w = [16, 8, 8, 6, 3, 1, 2, 1, 4, 1, 2, 1, 2, 0, 0, 0, 0, 0];
+    let mut w = [16, 8, 8, 6, 3, 1, 2, 1, 4, 1, 2, 1, 2, 0, 0, 0, 0, 0, 0];
     match prop {
         "C07" => {
             w[O_FORK] = 0;
@@ -263,7 +263,10 @@ impl<'a> Engine<'a> {
                 None => self.h.viol("C07", "phantom-element", format!("iteration yields class {} which the model does not hold", class)),
                 Some(e) => {
                     if F::IDENT && (k.tag() != e.tag || k.id() != e.kid) {
-                        self.h.viol("C12", "stored-key-identity", format!("class {}: stored element is tag {} id {:#x}, model expects tag {} id {:#x}", class, k.tag(), k.id(), e.tag, e.kid));
+                        let msg = format!("class {}: stored element is tag {} id {:#x}, model expects tag {} id {:#x}", class, k.tag(), k.id(), e.tag, e.kid);
+                        self.h.viol("C12", "stored-key-identity", msg.clone());
+                        // which element OBJECT a set hands back or exposes is part of the result an ideal set gives (C07)
+                        self.h.viol("C07", "element-object", msg);
                     }
                 }
             }
@@ -302,7 +305,10 @@ impl<'a> Engine<'a> {
                     (None, None) => {}
                     (Some(e), Some((tag, kid, ka))) => {
                         if F::IDENT && (*tag != e.tag || *kid != e.kid) {
-                            self.h.viol("C12", "get-identity", format!("Set::get(class {}) exposes tag {} id {:#x}; the stored element is tag {} id {:#x}", class, tag, kid, e.tag, e.kid));
+                            let msg = format!("Set::get(class {}) exposes tag {} id {:#x}; the stored element is tag {} id {:#x}", class, tag, kid, e.tag, e.kid);
+                            self.h.viol("C12", "get-identity", msg.clone());
+                            // which element OBJECT a set hands back or exposes is part of the result an ideal set gives (C07)
+                            self.h.viol("C07", "element-object", msg);
                         }
                         if let Some(y) = seen.iter().find(|x| x.0 == class) {
                             if y.1 != *ka {
@@ -370,7 +376,10 @@ impl<'a> Engine<'a> {
                             self.h.viol("C07", "replace-result", format!("replace(class {}) returned an element of class {}", class, oclass));
                         }
                         if F::IDENT && (otag != e.tag || oid != e.kid) {
-                            self.h.viol("C12", "returned-key-identity", format!("replace returned element tag {} id {:#x}; the stored one was tag {} id {:#x}", otag, oid, e.tag, e.kid));
+                            let msg = format!("replace returned element tag {} id {:#x}; the stored one was tag {} id {:#x}", otag, oid, e.tag, e.kid);
+                            self.h.viol("C12", "returned-key-identity", msg.clone());
+                            // which element OBJECT a set hands back or exposes is part of the result an ideal set gives (C07)
+                            self.h.viol("C07", "element-object", msg);
                         }
                         let me = s.model.get_mut(class).unwrap();
                         me.tag = tag;
@@ -415,7 +424,10 @@ impl<'a> Engine<'a> {
         }
         if let (true, Some(e), Some((tag, kid))) = (F::IDENT, want, r.1) {
             if tag != e.tag || kid != e.kid {
-                self.h.viol("C12", "removed-key-identity", format!("take(class {}) returned tag {} id {:#x}; the stored element was tag {} id {:#x}", class, tag, kid, e.tag, e.kid));
+                let msg = format!("take(class {}) returned tag {} id {:#x}; the stored element was tag {} id {:#x}", class, tag, kid, e.tag, e.kid);
+                self.h.viol("C12", "removed-key-identity", msg.clone());
+                // which element OBJECT a set hands back or exposes is part of the result an ideal set gives (C07)
+                self.h.viol("C07", "element-object", msg);
             }
         }
     }
@@ -426,7 +438,7 @@ impl<'a> Engine<'a> {
         // sometimes the predicate panics at its k-th call (C04 meets C07: membership must stay a set)
         let panic_at: Option<usize> = if len0 > 0 && self.rng.chance(1, 6) { Some(1 + self.rng.usize_below(len0)) } else { None };
         self.step("retain", || format!("retain(mask={:#06x}{})", mask & 0xFFFF, panic_at.map_or(String::new(), |k| format!(", predicate panics at call {}", k))));
-        self.fp_step(s, O_RETAIN, u32::from(panic_at.is_some()), mask & ((1 << (self.universe + 1)) - 1));
+        self.fp_step(s, O_RETAIN, u32::from(panic_at.is_some()), mask & ((1u64.checked_shl(self.universe + 1).unwrap_or(0).wrapping_sub(1))));
         let keep = |class: u32| (mask >> (class % 60)) & 1 == 1;
         let nkeep = s.model.ents.iter().filter(|e| keep(e.class)).count();
         let outcome = if panic_at.is_some() { "predicate-panics" } else if nkeep == s.model.len() { "keep-all" } else if nkeep == 0 { "drop-all" } else { "some" };
@@ -1037,7 +1049,8 @@ impl<'a> Engine<'a> {
         self.h.live_base = F::live_objects().unwrap_or(0);
         let mut suts: Vec<Sut<F, N>> = vec![Sut::new()];
         self.sweep(&mut suts[0]);
-        let steps = self.rng.length(8, max_steps);
+        // capacities beyond 32 / 64 need histories long enough to fill them
+        let steps = if N > 32 { self.rng.length(3 * N, (5 * N).max(max_steps)) } else { self.rng.length(8, max_steps) };
         for _ in 0..steps {
             self.one_op(&mut suts);
             if self.h.failed || ledger::viol_total() > 0 {
